@@ -1,7 +1,85 @@
 package main
 
+import (
+	"context"
+	"fmt"
+	"os"
+	"os/exec"
+	"path/filepath"
+	"regexp"
+	"strings"
+	"time"
+)
+
+// Native (coverage-guided) fuzzing, thorough tier. The targets live in /verif/props behind the verif
+// build tag (props/fuzz_verif_test.go) and run LuaHelper's parsers inside the fuzzing process. A
+// failing input is the reproducible unit (Go's fuzzer cannot be seeded): the corpus file the fuzzer
+// wrote is moved to replays/found/<id>-<Target>-<hash>.fuzz and re-decided by `vcheck <id> --replay`.
+
+var (
+	reFailing = regexp.MustCompile(`Failing input written to (testdata/fuzz/\S+)`)
+	reExecs   = regexp.MustCompile(`execs: (\d+)`)
+)
+
+func fuzzDir() string { return filepath.Join(verifDir, "props") }
+
 // nativeFuzz runs a Go native fuzz target for the given number of seconds. Returns the path of a
 // crasher (if any) and a note for the evidence file.
 func nativeFuzz(id, target string, secs int) (string, string) {
-	return "", "native fuzzing not wired for " + id
+	os.RemoveAll(filepath.Join(fuzzDir(), "testdata", "fuzz", target))
+	ctx, cancel := context.WithTimeout(context.Background(), time.Duration(secs+300)*time.Second)
+	defer cancel()
+	cmd := exec.CommandContext(ctx, "go", "test", "-tags", "verif", "-run", "^$", "-fuzz", "^"+target+"$", "-fuzztime", fmt.Sprintf("%ds", secs), "./props")
+	cmd.Dir = verifDir
+	cmd.Env = goEnv()
+	outB, err := cmd.CombinedOutput()
+	out := string(outB)
+	execs := "0"
+	if m := reExecs.FindAllStringSubmatch(out, -1); len(m) > 0 {
+		execs = m[len(m)-1][1]
+	}
+	note := fmt.Sprintf("native fuzzing: target %s, %d s on all cores, %s executions", target, secs, execs)
+	if m := reFailing.FindStringSubmatch(out); m != nil {
+		src := filepath.Join(fuzzDir(), m[1])
+		dst := filepath.Join(verifDir, "replays", "found", fmt.Sprintf("%s-%s-%s.fuzz", id, target, filepath.Base(src)))
+		os.MkdirAll(filepath.Dir(dst), 0o755)
+		if b, rerr := os.ReadFile(src); rerr == nil {
+			os.WriteFile(dst, b, 0o644)
+		}
+		os.RemoveAll(filepath.Join(fuzzDir(), "testdata", "fuzz", target))
+		if i := strings.Index(out, "VERIF-FUZZ"); i >= 0 {
+			fmt.Println(lastLines(out[i:], 12))
+		}
+		return dst, note + "; a failing input was found"
+	}
+	if err != nil && !strings.Contains(out, "\nPASS") {
+		return "", note + "; the fuzz run did not complete: " + lastLines(out, 3)
+	}
+	return "", note + "; no failing input"
+}
+
+// replayFuzz re-decides a saved fuzz input: 0 ok, 1 violation, 2 inconclusive.
+func replayFuzz(path string) (int, string) {
+	base := filepath.Base(path)
+	parts := strings.SplitN(strings.TrimSuffix(base, ".fuzz"), "-", 3)
+	if len(parts) != 3 {
+		return 2, "not a fuzz replay file name: " + base
+	}
+	target, hash := parts[1], parts[2]
+	dir := filepath.Join(fuzzDir(), "testdata", "fuzz", target)
+	os.MkdirAll(dir, 0o755)
+	b, err := os.ReadFile(path)
+	if err != nil {
+		return 2, err.Error()
+	}
+	os.WriteFile(filepath.Join(dir, hash), b, 0o644)
+	defer os.RemoveAll(filepath.Join(fuzzDir(), "testdata", "fuzz", target))
+	out, rerr := run(verifDir, append(goEnv(), "VERIF_UNGATED=1"), "go", "test", "-tags", "verif", "-count=1", "-run", "^"+target+"$/^"+hash+"$", "./props")
+	switch {
+	case strings.Contains(out, "VERIF-FUZZ"):
+		return 1, out
+	case rerr == nil && strings.Contains(out, "ok"):
+		return 0, out
+	}
+	return 2, out
 }
